@@ -46,6 +46,8 @@ macro_rules! systems {
             "state.shared" => sys_state::Sys<sys_state::Shared<PL>>,
             "timer.local" => sys_timer::Sys<sys_timer::Local>,
             "timer.std" => sys_timer::Sys<sys_timer::Std>,
+            "timer.sweep.local" => sys_timer::Sweep<sys_timer::Local>,
+            "timer.sweep.std" => sys_timer::Sweep<sys_timer::Std>,
             "mpmc.arrL0" => sys_mpmc::Sys<sys_mpmc::ArrL<0>>,
             "mpmc.arrL1" => sys_mpmc::Sys<sys_mpmc::ArrL<1>>,
             "mpmc.arrL2" => sys_mpmc::Sys<sys_mpmc::ArrL<2>>,
@@ -62,6 +64,12 @@ macro_rules! systems {
             "ring.arr3" => sys_ds::RingSys<futures_intrusive::buffer::ArrayBuf<harness::Tag, [harness::Tag; 3]>>,
             "ring.arr4" => sys_ds::RingSys<futures_intrusive::buffer::ArrayBuf<harness::Tag, [harness::Tag; 4]>>,
             "ring.fix" => sys_ds::RingSys<futures_intrusive::buffer::FixedHeapBuf<harness::Tag>>,
+            "ringz.arr0" => sys_ds::ZstRingSys<futures_intrusive::buffer::ArrayBuf<sys_ds::ZTag, [sys_ds::ZTag; 0]>>,
+            "ringz.arr1" => sys_ds::ZstRingSys<futures_intrusive::buffer::ArrayBuf<sys_ds::ZTag, [sys_ds::ZTag; 1]>>,
+            "ringz.arr2" => sys_ds::ZstRingSys<futures_intrusive::buffer::ArrayBuf<sys_ds::ZTag, [sys_ds::ZTag; 2]>>,
+            "ringz.arr3" => sys_ds::ZstRingSys<futures_intrusive::buffer::ArrayBuf<sys_ds::ZTag, [sys_ds::ZTag; 3]>>,
+            "ringz.fix" => sys_ds::ZstRingSys<futures_intrusive::buffer::FixedHeapBuf<sys_ds::ZTag>>,
+            "ringz.grow" => sys_ds::ZstRingSys<futures_intrusive::buffer::GrowingHeapBuf<sys_ds::ZTag>>,
             "ring.grow" => sys_ds::RingSys<futures_intrusive::buffer::GrowingHeapBuf<harness::Tag>>,
             "ringscript.arr63" => sys_ds::RingScript<futures_intrusive::buffer::ArrayBuf<harness::Tag, [harness::Tag; 63]>>,
             "ringscript.arr64" => sys_ds::RingScript<futures_intrusive::buffer::ArrayBuf<harness::Tag, [harness::Tag; 64]>>,
@@ -73,6 +81,7 @@ macro_rules! systems {
             "ds.heap" => sys_ds::HeapSys,
             "burst" => sys_burst::Sys,
             "burstscript" => sys_burst::Script,
+            "ds.heapscript" => sys_ds::HeapScript,
             "mutex.local" => sys_mutex::Sys<NL>,
             "mutex.std" => sys_mutex::Sys<PL>,
             "sem.local" => sys_sem::Sys<sys_sem::Borrowed<NL>>,
